@@ -328,7 +328,8 @@ Section Generic.
 
   (* ------------------------------------------------------------- run *)
   Variable trans : list (string * string * string).
-  Notation run_w := (run_with trans).
+  Variable cmode : string.
+  Notation run_w := (run_with trans cmode).
 
   Definition is_compute (cl : call) : bool :=
     match cl with
@@ -342,7 +343,7 @@ Section Generic.
     else if String.eqb fn "misfit" then [CCompute false []; CGetSynthetic; CGetMisfit]
     else [CCompute false []; CGetSynthetic; CGetMisfit; CGetGradient].
 
-  Lemma setup_no_compute o sl : filter is_compute (setup_calls trans o sl) = [].
+  Lemma setup_no_compute o sl : filter is_compute (setup_calls trans cmode o sl) = [].
   Proof.
     unfold setup_calls.
     destruct (file_of o "load").
@@ -383,7 +384,7 @@ Section Generic.
                 = pre ++ [CSaveOut (file_str o "output") (out_keys (o_function o))].
   Proof.
     unfold run_with, save_calls.
-    exists (setup_calls trans o sl ++ compute_calls o
+    exists (setup_calls trans cmode o sl ++ compute_calls o
             ++ match file_of o "save" with Some f => [CSaveSim f] | None => [] end).
     rewrite <- !app_assoc. reflexivity.
   Qed.
@@ -399,6 +400,22 @@ Section Generic.
     - unfold run_with, setup_calls. rewrite Hl.
       apply in_or_app. left. apply in_or_app. right. apply in_or_app. right. left. reflexivity.
     - intros op Hin Hu. unfold sim_opts. apply in_map. apply filter_In. split; assumption.
+  Qed.
+
+  (* --load + --clean: the loaded simulation is cleaned with [cmode] and gets
+     the new model BEFORE anything is computed or read from it *)
+  Lemma clean_branch_g o sl f :
+    file_of o "load" = Some f -> o_clean o = true ->
+    exists rest, run_w o true sl
+                 = [CLoadSim f; CClean cmode; CLoadModel (file_str o "model"); CSetModel] ++ rest
+                 /\ filter is_compute rest = filter is_compute (compute_calls o).
+  Proof.
+    intros Hl Hc. unfold run_with, setup_calls. rewrite Hl, Hc.
+    eexists. split.
+    - simpl. reflexivity.
+    - rewrite !filter_app, save_no_compute, app_nil_r.
+      destruct (gopt o "expand"); simpl;
+        destruct (Bool.eqb sl (wants_layered o)); reflexivity.
   Qed.
 
   Definition is_build (cl : call) : bool :=
@@ -428,3 +445,14 @@ Section Generic.
     - left. reflexivity.
   Qed.
 End Generic.
+
+(* clean(mode) leaves nothing of [wanted] behind when mode resets all of it *)
+Lemma clean_removes resets mode wanted :
+  forallb (fun n => str_mem n (resets_of resets mode)) wanted = true ->
+  forall st n, In n wanted -> ~ In n (apply_clean resets mode st).
+Proof.
+  intros H st n Hn Hin. unfold apply_clean in Hin. apply filter_In in Hin.
+  destruct Hin as [_ Hf]. apply negb_true_iff in Hf.
+  pose proof (proj1 (forallb_forall _ _) H n Hn) as Hm. cbv beta in Hm.
+  rewrite Hm in Hf. discriminate Hf.
+Qed.
